@@ -3,7 +3,7 @@ from __future__ import annotations
 
 import ast
 
-from ..lib import Facts, calls_in, own_nodes, stmt_of
+from ..lib import call_sites_of, Facts, calls_in, own_nodes, stmt_of
 from ..model import AnalysisError, FuncInfo
 from ..report import Run
 from ..terms import TermCtx, contains, show, strip_sites, unphi_terms
@@ -252,32 +252,44 @@ def check(run: Run) -> None:
         run.check(exempt, "C07.R4", pm, stmt_of(c), "methods defined on ObjectStream are not given defaults", "calls resolved to the library's own stream operators (methods defined on ObjectStream) are normalised like user methods: their internal known_types={} parameter is materialised in the emitted query", "skip filling when base_obj.method_class is ObjectStream")
         a0 = strip_sites(fp.term_of(c.args[0]))
         run.check(a0[0] == "attr" and a0[2] == "method", "C07.R2", pm, stmt_of(c), "the signature used is the resolved method's", f"filling uses {show(a0)[:60]} as the signature")
-    # the normalised node (not the call as written) is what type following / callbacks continue with
-    filled = None
-    for c in sites:
-        st_ = stmt_of(c)
-        if isinstance(st_, ast.Assign) and isinstance(st_.targets[0], ast.Tuple) and isinstance(st_.targets[0].elts[0], ast.Name):
-            fname = st_.targets[0].elts[0].id
-            loads = [n for n in own_nodes(pm) if isinstance(n, ast.Name) and n.id == fname and isinstance(n.ctx, ast.Load) and fp.cfg.has_node(n)]
-            cand = {strip_sites(fp.term_of(n)) for n in loads}
-            if len(cand) == 1:
-                filled = cand.pop()
-    users = [c for c in calls_in(pm) if isinstance(c.func, ast.Attribute) and c.func.attr == "type_follow_in_callbacks"]
-    run.check(len(users) == 1, "C07.R2", pm, pm.node, "one continuation of type following with the normalised call", f"{len(users)} type_follow_in_callbacks sites")
-    for c in users:
-        a2 = strip_sites(fp.term_of(c.args[2])) if len(c.args) > 2 else None
-        run.check(filled is not None and a2 == filled, "C07.R2", pm, stmt_of(c), "collection operators are followed on the normalised call", f"type following of collection-class methods continues with {show(a2)[:60] if a2 else '?'} instead of the normalised call returned by _fill_in_default_arguments: an operator of a registered collection class that takes defaulted parameters next to its lambda is emitted without its defaults / with its keywords", "type_follow_in_callbacks(m_name, base_obj, default_args_node)")
-    infos = [c for c in calls_in(pm) if isinstance(c.func, ast.Name) and c.func.id == "_MethodTypeReturnInfo"]
-    for c in infos:
+    # the normalised node (not the call as written) is what type following / callbacks continue with - wherever in
+    # process_method_call's unit the continuation and the candidate records are written
+    from ..lib import known_empty, unit as _unit
+
+    ctx_u = TermCtx(m, max_depth=2, opaque=set(ctx_pm.opaque))
+
+    def _is_filled(t) -> bool:
+        alts = unphi_terms(t)
+        return bool(alts) and all(a_[0] == "index" and a_[2] == 0 and a_[1][0] == "app" and a_[1][1][0] == "global" and a_[1][1][1].endswith("_fill_in_default_arguments") for a_ in alts)
+
+    u_fns = [g_ for g_ in _unit(m, pm0) if g_ is pm0 or g_.name.startswith("_")]  # process_method_call and what was split off it
+    users = [(g_, c) for g_ in u_fns for c in calls_in(g_) if isinstance(c.func, ast.Attribute) and c.func.attr == "type_follow_in_callbacks"]
+    run.check(len(users) == 1, "C07.R2", pm0, pm0.node, "one continuation of type following with the normalised call", f"{len(users)} type_follow_in_callbacks sites")
+    for g_, c in users:
+        fg_ = ctx_u.analysis(g_)
+        a2 = strip_sites(fg_.term_of(c.args[2])) if len(c.args) > 2 and fg_.cfg.has_node(c) else None
+        run.check(a2 is not None and _is_filled(a2), "C07.R2", g_, stmt_of(c), "collection operators are followed on the normalised call", f"type following of collection-class methods continues with {show(a2)[:60] if a2 else '?'} instead of the normalised call: defaults and keyword order of e.g. a typed Select are lost")
+    infos = [(g_, c) for g_ in u_fns for c in calls_in(g_) if isinstance(c.func, ast.Name) and c.func.id == "_MethodTypeReturnInfo"]
+    for g_, c in infos:
         kw = {k.arg: k.value for k in c.keywords}
         if "node" in kw:
-            nt = strip_sites(fp.term_of(kw["node"]))
-            fx = Facts(fp, c)
-            from ..lib import known_empty
-
-            res_lists = {x.func.value.id for x in calls_in(pm) if isinstance(x.func, ast.Attribute) and x.func.attr == "append" and isinstance(x.func.value, ast.Name) and any(y is c for a_ in x.args for y in ast.walk(a_))}
-            raw_ok = nt == pm_node and any(known_empty(fx.atoms, nm) is True for nm in res_lists)
-            run.check(nt == filled or raw_ok, "C07.R2", pm, stmt_of(c), "candidate results carry the normalised call (the raw call only when no definition was found)", f"a candidate result carries {show(nt)[:60]} instead of the normalised call")
+            fg_ = ctx_u.analysis(g_)
+            if not fg_.cfg.has_node(c):
+                continue
+            nt = strip_sites(fg_.term_of(kw["node"]))
+            # the raw call only when no definition was found: the record is made where the result list is known to be empty
+            # (in the function that appends it, or at the call of the helper that builds it)
+            raw_ok = False
+            if not _is_filled(nt):
+                holders = [(g_, c)]
+                if g_ is not pm0:
+                    holders += [(c_, call) for c_, call, _sk in call_sites_of(m, g_) if any(c_ is u for u in u_fns)]
+                for h_, where in holders:
+                    fh_ = ctx_u.analysis(h_)
+                    res_lists = {x.func.value.id for x in calls_in(h_) if isinstance(x.func, ast.Attribute) and x.func.attr == "append" and isinstance(x.func.value, ast.Name) and any(y is where for a_ in x.args for y in ast.walk(a_))}
+                    if fh_.cfg.has_node(where) and any(known_empty(Facts(fh_, where).atoms, nm) is True for nm in res_lists):
+                        raw_ok = True
+            run.check(_is_filled(nt) or raw_ok, "C07.R2", g_, stmt_of(c), "candidate results carry the normalised call (the raw call only when no definition was found)", f"a candidate result carries {show(nt)[:60]} instead of the normalised call")
 
     pf = m.find_func("process_function_call", in_module=mod)
     fsites = [c for c in calls_in(pf) if isinstance(c.func, ast.Name) and c.func.id == "_fill_in_default_arguments"]
@@ -446,7 +458,7 @@ def check_backlink_values(run: Run, ctx, m, mod: str, rule: str) -> None:
     node R, with R itself as the fall-back; reading it from the new node finds nothing and the chain to the user's
     call is cut."""
     n_st = 0
-    for fi in [f for f in m.funcs.values() if f.module.name == mod]:
+    for fi in list(m.funcs.values()):  # wherever in the package the link is written (the helper may have been moved)
         fa = None
         for n in own_nodes(fi):
             if not (isinstance(n, ast.Assign) and len(n.targets) == 1 and isinstance(n.targets[0], ast.Attribute) and n.targets[0].attr == "_old_ast"):
@@ -469,7 +481,7 @@ def check_backlink_values(run: Run, ctx, m, mod: str, rule: str) -> None:
                 else:
                     root = alt
                 run.check(root != tgt, rule, fi, n, "a node's back-link points at another node", f"{show(tgt)[:60]}._old_ast is (read from) the node itself: the chain back to the user's call is cut", "", show(val), key="back-link points at the node itself")
-    run.floor(rule, n_st, 3, "_old_ast back-link stores in the type follower")
+    run.floor(rule, n_st, 2, "_old_ast back-link stores in the package")
 
 
 def check_patch_back(run: Run, ctx, m, mod: str, rule: str) -> None:
